@@ -136,10 +136,12 @@ class Tokenizer:
         start = end = self._tokens[-1].end
         header: list[TokenInfo] | None = []  # blanks and a comment between the colon and the end of the header line
         block = False  # the header line ended right after the colon: an indented block follows
+        block_col = 0
+        outside: dict[int, str] = {}  # comment lines left of the block (and what follows them): part of the block only if it goes on
         for tok in self._tokengen:
             if tok.type == Token.ENDMARKER:
                 # end of input inside the block: hand the marker back instead of swallowing it
-                if not lines:
+                if not lines or (block and not is_indented):
                     raise self.syntax_error("expected an indented block after 'with' statement", tok)
                 self._stack.append(tok)
                 self._with_macro = False
@@ -157,6 +159,7 @@ class Tokenizer:
             elif block and not is_indented:
                 if tok.type == Token.INDENT:
                     is_indented = True
+                    block_col = tok.end[1]
                     continue
                 if tok.type in {Token.COMMENT, Token.NL, Token.WS}:
                     lines.setdefault(tok.start[0], tok.line)  # comment and blank lines before the first statement of the block
@@ -180,6 +183,14 @@ class Tokenizer:
                     # the last line of a multi-line string, which no other token has shown yet
                     lines.setdefault(tok.start[0], tok.line)
                     continue
+
+            if is_indented and tok.type in {Token.COMMENT, Token.NL, Token.WS}:
+                if outside or (tok.type == Token.COMMENT and tok.start[1] < block_col and not tok.line[: tok.start[1]].strip()):
+                    outside.setdefault(tok.start[0], tok.line)
+                    continue
+            elif outside and tok.type != Token.DEDENT:
+                lines.update(outside)  # the block goes on after the comment
+                outside.clear()
 
             # update captured lines
             if tok.start[0] not in lines:
